@@ -354,7 +354,8 @@ rfc1035RRPack(char *buf, const size_t sz, const rfc1035_rr * RR)
     s = htons(RR->rdlength);
     memcpy(buf + off, &s, sizeof(s));
     off += sizeof(s);
-    memcpy(buf + off, RR->rdata, RR->rdlength);
+    if (RR->rdlength) // RR->rdata may be nil for an empty RDATA (e.g., OPT)
+        memcpy(buf + off, RR->rdata, RR->rdlength);
     off += RR->rdlength;
     assert(off <= sz);
     return off;
